@@ -533,7 +533,12 @@ def rule_cleanup(run):
     run.end()
 
 
-RULES = [rule_fdef, rule_leaf, rule_order, rule_state_check, rule_arms, rule_cleanup]
+def rule_writeback(run):
+    from ..rules import roles as _roles
+    _roles.run_writeback_rule(run, "F-WRITEBACK")
+
+
+RULES = [rule_fdef, rule_leaf, rule_order, rule_state_check, rule_arms, rule_cleanup, rule_writeback]
 
 LEVEL = "other"
 EXPLANATION = (
